@@ -48,6 +48,12 @@ OutMatch(e, x) ==
       [] e.o = "OutSetCS"        -> x.msg.k = "SetChunkSize"
       [] OTHER -> FALSE
 
+\* the "requests" C10 speaks of: connect / createStream / play / publish / deleteStream commands and published media
+IsRequest(x) ==
+    \/ x.msg.k \in {"Audio", "Video"}
+    \/ x.msg.k = "Command" /\ \E nm \in {N_connect, N_createStream, N_play, N_publish, N_deleteStream} : BytesEq(x.msg.name, Lit(nm))
+    \/ x.msg.k = "Data" /\ Len(x.msg.vals) >= 1 /\ StrIs(x.msg.vals[1], N_setDataFrame)
+
 EvMatch(e, x) ==
     /\ e.o = x.o
     /\ CASE e.o = "Media" -> x.kind = e.kind /\ x.ts = e.ts /\ BytesEq(x.data, Ev.i.data)
@@ -102,7 +108,7 @@ DoStep ==
         gotA == Acks(rs)
         ackBad == IF Ev.ev # "In" THEN Len(gotA) # 0
                   ELSE IF a.ack = <<>> THEN Len(gotA) # 0
-                  ELSE ~(Len(gotA) = 1 /\ gotA[1].msg.v = a.ack[1] /\ rs[1] = gotA[1])
+                  ELSE ~(Len(gotA) = 1 /\ gotA[1].msg.v = a.ack[1])
         refusedCall == wantErr /\ Ev.ev = "Call"
         verdictCli ==
             IF noEvent THEN (IF Len(gotE) # 0 THEN "event raised in a state that does not permit it (" \o i0.m \o ")" ELSE "")
@@ -115,7 +121,7 @@ DoStep ==
             ELSE IF Len(gotE) # Len(exE) THEN "raised events differ from what the workflow prescribes (" \o i0.m \o ")"
             ELSE IF \E k \in 1 .. Len(exE) : ~EvMatch(exE[k], gotE[k]) THEN "raised event has wrong content (" \o i0.m \o ")"
             ELSE IF ~Embed(exO, 1, gotO, 1) THEN "required outbound message missing or wrong (" \o i0.m \o ")"
-            ELSE IF exO = <<>> /\ Len(gotO) # 0 THEN "outbound message emitted by an input that does not ask for one (" \o i0.m \o ")"
+            ELSE IF exO = <<>> /\ \E k \in 1 .. Len(gotO) : IsRequest(gotO[k]) THEN "request emitted by an input that does not ask for one (" \o i0.m \o ")"
             ELSE IF i0.m \in {"result", "error"} /\ r.obs = <<[o |-> "UnknownTxn"]>> /\ Ev.probe.state # prevProbe.state
                  THEN "answer to an unknown transaction was applied"
             ELSE ""
@@ -127,7 +133,7 @@ DoStep ==
             /\ IF \E k \in 1 .. Len(rs) : rs[k].k = "out" /\ rs[k].drop /\ rs[k].msg.k \notin {"Audio", "Video", "Undecodable"}
                THEN Say("WIRE", "droppable mark on a packet that is not media") ELSE TRUE
             /\ IF ackBad THEN Say("ACK", IF a.ack = <<>> THEN "acknowledgement emitted although the window was not reached"
-                                         ELSE "window reached: exactly one acknowledgement carrying the byte count must lead the results")
+                                         ELSE "window reached: exactly one acknowledgement carrying the byte count must be emitted by this call")
                ELSE TRUE
             /\ IF verdictCli = "" /\ ~ProbeOK(Ev.probe, r.st) THEN Say("PROBE", "session state differs from the model after " \o i0.m) ELSE TRUE
     /\ st' = r.st
